@@ -51,10 +51,9 @@ def build(u):
         'trusted: as U-SYM (HashMap::get_mut spec, Result::clone spec, vstd HashMap/Option/Result/String specs, derived Clone identity, derived PartialEq of ValueType is teq)',
         'opaque: Location, lexer::Error, DeclarationFlag, EnumSet<T>',
         'arms of Statement::analyze other than Declaration / Assignment (calls, if, block, jumps) are verified only to keep the table well formed',
-        'caller obligations aa_obligations (precondition of Reference::analyze_assignment and, through stmt_pre, of Statement::analyze): the two assert!(..is_wellformed()) sites that '
-        'nothing in the typer guards - the type built for the base variable (put_symbol -> do_update_symbol) and the assignee type of E507 - and pointer depth < 2^64; the member put is guarded '
-        '(the built member type is replaced by the type of the value when it is not well formed) and its well-formedness obligation is PROVED. '
-        'Recorded findings D22 (`a[0] = s` for a slice s) and D23 (`&p = s`) violate them on the real pipeline (compiler panic instead of E504/E507); they stay preconditions, not proved',
+        'caller obligation aa_obligations (precondition of Reference::analyze_assignment and, through stmt_pre, of Statement::analyze): only the size regime "pointer depth of the value type < 2^64" '
+        '(pointer_depth() counts in a usize).  The assert!(..is_wellformed()) sites of the assignment path are PROVED unreachable: the type put for the base variable and the type put for the member are '
+        'guarded (replaced by the type of the value when the built type is not well formed; former finding D22), the assert on the assignee type of E507 is gone (former finding D23)',
         'verified helpers (not trusted): steps_last_member (prelude/typst_helpers.rs, rule TY1), slice_rposition / slice_position (prelude/slice_position.rs, rule TY3), index loop of rule TY2; '
         'lemma_last_member_char ties the member found by iter().rev().find_map(get_member) to the index found by iter().rposition(is member)',
         'trusted in addition to U-SYM: [T]::reverse spec (rule R1), vstd specs of Vec::as_slice and range indexing of a Vec (`&steps[(i + 1)..]`, `&steps[..]`)',
